@@ -32,6 +32,8 @@ type c17Req struct {
 	ExpObj string `json:"expobj,omitempty"`
 	// opcode -> delay in clocks -> probability; one SimDelays object is built from it and shared by all the calls
 	Delays map[string]map[string]float32 `json:"delays,omitempty"`
+	// no warm-up call: the first calls this process makes are the concurrent ones (lazily initialised package state is still cold)
+	Cold bool `json:"cold,omitempty"`
 }
 
 type c17Res struct {
@@ -209,7 +211,9 @@ func init() {
 				return "?"
 			}
 			// warm up once so that lazily started runtime goroutines are not counted
-			one()
+			if !q.Cold {
+				one()
+			}
 			settle()
 			beforeTops := goroutineTops()
 			res.Before = runtime.NumGoroutine()
